@@ -117,7 +117,7 @@ Definition tor_step (tv : tview) (e : event) : tview :=
 (* ---------------------------------------------------------------------------------------
    What Tor can emit (control-spec 4.1.1, 4.1.2): the quantifier of the property *)
 Definition kw_ok (kw : kws) : bool :=
-  nodupN (map fst kw) &&
+  nodupN (map fst kw) && forallb (fun p => fst p <? 100) kw &&     (* keyword numbers; 100 + k is k in lower case (C08) *)
   match kw_get K_BUILD_FLAGS kw with Some v => (1 <=? v) && (v <? 16) | None => true end &&
   match kw_get K_SOURCE_ADDR kw with Some v => v <? 4294967296 | None => true end.
 
